@@ -168,7 +168,11 @@ func (env *SpecEnv) eval(e Expr) SV {
 		T := env.resolveType(e.Type)
 		switch b := base.V.(type) {
 		case VIface:
-			if _, isPtr := typeUnder(T).(*types.Pointer); isPtr {
+			if pt, isPtr := typeUnder(T).(*types.Pointer); isPtr {
+				if bp, ok := x.unboxPtr(b.Val); ok {
+					_ = pt
+					return SV{bp, T} // a descriptor pointer boxed into the interface (e.g. &a.expirePriorityQueue)
+				}
 				return SV{VInt{b.Val}, T}
 			}
 			return SV{x.unboxValSpec(b.Val, T), T}
@@ -1156,6 +1160,12 @@ func (env *SpecEnv) evalCall(e ECall) SV {
 		return SV{VInt{c.Ite(env.evalBool(e.Args[0]), c.Int(1), c.Int(0))}, nil}
 	case "sat":
 		return SV{VInt{x.sat(env.evalInt(e.Args[0]), env.evalInt(e.Args[1]))}, nil}
+	case "mapkey":
+		a := arg(0)
+		if a.T == nil {
+			specFail("mapkey needs a typed value")
+		}
+		return SV{VInt{x.keyTermSpec(a.V, a.T)}, nil}
 	case "lastIndex":
 		return SV{VInt{c.Apply(c.Fun("strLastIndex", []Sort{SInt, SInt}, SInt), env.evalInt(e.Args[0]), env.evalInt(e.Args[1]))}, tInt}
 	case "sameElems":
